@@ -104,7 +104,12 @@ class Report:
             d = os.path.join(util.REPLAYS, self.prop)
             os.makedirs(d, exist_ok=True)
             seen = set()
-            for v in self.violations[:50]:
+            firsts, sigs = [], set()
+            for v in self.violations:
+                if v["signature"] not in sigs:
+                    sigs.add(v["signature"])
+                    firsts.append(v)
+            for v in (firsts + self.violations[:20])[:60]:
                 body = json.dumps({"property": self.prop, "tier": self.tier, "seed": util.seed(), **v},
                                   indent=1, sort_keys=True, default=str)
                 h = hashlib.blake2b(body.encode(), digest_size=6).hexdigest()
